@@ -523,6 +523,15 @@ example (a : Addr) (m : Nat) (tcp : Bool) : Inv (enableLatch (init a m tcp)) [] 
 
 example : (run (enableLatch (init ⟨0, 0⟩ 3 false)) [.pkt ⟨1, 5001⟩ (.rtp 7 1 0 false)]).remote = ⟨1, 5001⟩ := by decide
 
+/-- declared reading (see NOTES/C18.md, propcfg assumption 2): while the latch is OPEN a
+selected-pair update moves the destination to an address that never sent RTP — in RTP mode such an
+update can be caused by an unauthenticated STUN binding request from the pair's port on another IP
+(`ice/mod.rs`); once latched the same update is refused (`latched_sticky`). -/
+example :
+    let s := run (init ⟨9, 5009⟩ 6 false) [.ssrc 7, .enable]
+    (step s (.pair ⟨3, 5009⟩)).remote = ⟨3, 5009⟩ ∧
+    (step (step s (.pkt ⟨1, 5001⟩ (.rtp 7 1 0 true))) (.pair ⟨3, 5009⟩)).remote = ⟨1, 5001⟩ := by decide
+
 /-! ### An API call racing with `receive`
 
 `RtcModel.LatchRace`: the receive thread and the API thread advance from yield point to yield point
